@@ -29,7 +29,28 @@ let url_mode (cab : bool) =
       end
     done
   with End_of_file -> ()
+(* --fs: predictions for the filesystem probe: R:<http locate_file per kind>|S:<simple locate_file per kind>|C:<sorted created files> *)
+let fs_mode () =
+  try
+    while true do
+      let line = input_line stdin in
+      if String.length line > 0 && line.[0] <> '#' then begin
+        match split_ws line with
+        | [cf; df; did; cid] ->
+          let (((found, plain), rh), rs) = fs_case (bytes_of_tok cf) (opt_of_tok df) (opt_of_tok did) (opt_of_tok cid) in
+          if not found then print_endline "NOSITE|the flow model has no fetch_lookup / locate_file site"
+          else if not plain then print_endline "SKIP"
+          else begin
+            let show l = String.concat "," (List.map (function None -> "N" | Some p -> hex_of p) l) in
+            let made = List.sort_uniq compare (List.filter_map (function None -> None | Some p -> Some (hex_of p)) rh) in
+            print_endline ("R:" ^ show rh ^ "|S:" ^ show rs ^ "|C:" ^ String.concat "," made)
+          end
+        | _ -> print_endline "E;;bad case line"
+      end
+    done
+  with End_of_file -> ()
 let () =
+  if Array.length Sys.argv > 1 && Sys.argv.(1) = "--fs" then (fs_mode (); exit 0);
   if Array.length Sys.argv > 1 && Sys.argv.(1) = "--url" then (url_mode false; exit 0);
   if Array.length Sys.argv > 1 && Sys.argv.(1) = "--url-cab" then (url_mode true; exit 0);
 
